@@ -122,6 +122,19 @@ theorem C06_waiters_observe_outcome (P : Program) (F : Flags) (n : Nat) (tr : Li
       ex.res = wrapFor ex.indirect ex.out :=
   Props.C01.C01_shared P F n tr c h w wx k hw hk hp
 
+/-- … in particular a waiter fails exactly when the one real execution failed, and a waiter
+called the same way as the executing activation returns the same error -/
+theorem C06_waiters_same_verdict (P : Program) (F : Flags) (n : Nat) (tr : List Label) (c : Config)
+    (h : replay P F (init n) tr = some c) (w : Nat) (wx : Act) (k : Nat) (hw : c.act? w = some wx)
+    (hk : wx.waitsFor = some k) (hp : wokenPhase wx.phase = true) :
+    ∃ e ex, c.execs.lookup k = some e ∧ c.act? e = some ex ∧
+      wx.res.isOk = ex.res.isOk ∧ (wx.indirect = ex.indirect → wx.res = ex.res) := by
+  obtain ⟨e, ex, h1, h2, _, _, _, h3, h4⟩ := C06_waiters_observe_outcome P F n tr c h w wx k hw hk hp
+  have hsh := (S2.Shape_sound P F n tr c h e ex h2).out
+  refine ⟨e, ex, h1, h2, ?_, ?_⟩
+  · rw [h3, h4, S2.wrapFor_isOk _ _ hsh, S2.wrapFor_isOk _ _ hsh]
+  · intro hi; rw [h3, h4, hi]
+
 /-- … and the waking itself is only accepted then (trace form: `wakeAfterDone`) -/
 theorem C06_wake_after_done (P : Program) (F : Flags) (n : Nat) (tr : List Label) (c : Config)
     (h : replay P F (init n) tr = some c) : wakeAfterDone tr [] [] [] = true :=
